@@ -223,7 +223,7 @@ func c05cases(env *core.Env) []c05case {
 		if st.readOnly {
 			continue
 		}
-		for i := 0; i < env.Pick(60, 3000); i++ {
+		for i := 0; i < env.Pick(150, 5000); i++ {
 			cs = append(cs, c05case{si, -1 - i})
 		}
 	}
